@@ -582,15 +582,18 @@ Fixpoint join_sp (l : list bytes) : bytes :=
   | x :: r => x ++ 32 :: join_sp r
   end.
 
+(* the end of visit_query: a negated MatchAllDocs becomes MatchNoDocs *)
+Definition finish_query (q : node) : vres node :=
+  match q with
+  | NNot NAll => VOk NNone
+  | _ => VOk q
+  end.
+
 (* the loop of visit_query; and_group / and_groups are kept reversed *)
 Fixpoint fold_items (df : bytes) (items : list qitem) (is_not : bool) (grp grps : list node) : vres node :=
   match items with
   | [] =>
-      let grps' := new_boolean BAnd (rev grp) :: grps in
-      match new_boolean BOr (rev grps') with
-      | NNot NAll => VOk NNone
-      | q => VOk q
-      end
+      finish_query (new_boolean BOr (rev (new_boolean BAnd (rev grp) :: grps)))
   | it :: r =>
       match it with
       | QConj false => fold_items df r is_not grp grps
